@@ -45,7 +45,8 @@ def pools(hs):
                dt(2020, 1, 15, 12, 30, 0, 250000, tzinfo=pytz.utc),
                ny.localize(dt(2020, 7, 15, 8, 30, 0)),
                dt(2020, 7, 15, 12, 30, 0, tzinfo=pytz.utc),
-               dt(2019, 12, 31, 23, 59, 59, tzinfo=pytz.utc)],
+               dt(2019, 12, 31, 23, 59, 59, tzinfo=pytz.utc),
+               dt(9999, 12, 31, 23, 59, 59, tzinfo=pytz.utc), dt(1, 1, 1, 0, 0, 0, tzinfo=pytz.utc)],
         'misc': [hs.MARKER, hs.NA, hs.REMOVE, hs.Coordinate(1.5, -2.25), hs.XStr('hex', 'deadbeef'),
                  hs.XStr('Foo', 'a b  c'), hs.XStr('Foo', 'a b c'), hs.Bin('text/plain'), [1.0, 2.0], [1.0, 'a  b'],
                  [1.0, 'a b'], {'x': 1.0}, [5.0], [Q(5.0, 'kg')], []],
@@ -68,7 +69,10 @@ EXTRA_SPELLINGS = {
     'time': ['12:30:00', '12:30:00.5', '12:30:00.500', '12:30:00.001', '00:00:00', '23:59:59.999999'],
     'dt': ['2020-01-15T12:30:00Z', '2020-01-15T12:30:00Z UTC', '2020-01-15T07:30:00-05:00 New_York',
            '2020-01-15T12:30:00.25Z UTC', '2020-01-15T12:30:00+00:00', '2020-01-15T23:30:00+11:00 Sydney',
-           '2020-01-15T13:30:00+01:00', '2020-07-15T08:30:00-04:00 New_York'],
+           '2020-01-15T13:30:00+01:00', '2020-07-15T08:30:00-04:00 New_York',
+           # the ends of the calendar, named in zones whose own wall clock lies beyond it
+           '9999-12-31T23:59:59Z Tokyo', '9999-12-31T23:59:59Z Sydney', '0001-01-01T00:00:00Z New_York',
+           '0001-01-01T00:00:00Z Los_Angeles', '9999-12-31T23:59:59Z UTC', '0001-01-01T00:00:00Z'],
     'misc': ['M', 'NA', 'R', 'C(1.5,-2.25)', 'hex("deadbeef")', 'Foo("a b  c")', 'Foo("a b c")', 'Bin(text/plain)',
              '[1,2]', '[1, 2]', '[1,"a  b"]', '[1, "a b"]', '{x:1}', '[5]', '[5kg]', '[]', 'N'],
 }
@@ -263,6 +267,13 @@ def fixed_cases(hs):
     out += [(f, rows) for f in ['notes', 'notes == "x"', 'not notes', 'order', 'order == 1', 'android', 'id and notes',
                                 'id and android', 'id or order', 'nothing', 'notes and order', 'not order', 'not  android',
                                 '(notes)', 'notes or android']]
+    import datetime as _d
+    import pytz as _p
+    rows = [{'id': R('r1'), 'a': _p.utc.localize(_d.datetime(9999, 12, 31, 23, 59, 59))},
+            {'id': R('r2'), 'a': _p.utc.localize(_d.datetime(1, 1, 1, 0, 0, 0))},
+            {'id': R('r3'), 'a': _p.utc.localize(_d.datetime(2020, 1, 1, 0, 0, 0))}]
+    out += [('a %s %s' % (op, lit), rows) for op in OPS
+            for lit in ('9999-12-31T23:59:59Z Tokyo', '0001-01-01T00:00:00Z New_York', '9999-12-31T23:59:59Z UTC')]
     rows = [{'id': R('s1', 'Site One'), 'a': 'Chicago'}, {'id': R('s2'), 'a': 'Boston'},
             {'id': R('e1'), 'ref': R('s1'), 'b': 1.0}, {'id': R('e2'), 'ref': R('s1', 'Site One'), 'b': 2.0},
             {'id': R('e3'), 'ref': R('s2', 'shown otherwise'), 'b': 3.0}, {'id': R('e4'), 'ref': R('nobody'), 'b': 4.0}]
